@@ -34,6 +34,34 @@ def run(ctx, db, tier):
     # what pop() / the iteration hands to the scheduler must be a handle that was put in: the list reads the storage it wrote
     C06.typestate(ctx, db, 'C05.carried-handles-read-where-written')
     C06.collected_is_removed(ctx, db, 'C05.collected-is-removed')
+    order_kept(ctx, db)
+
+
+def order_kept(ctx, db, rid_='C05.handles-leave-in-arrival-order'):
+    """a suspend point is an ordered list (arrival order = the order the coroutines were made ready); pop() takes the NEWEST entry (it exists
+    for the single symmetric transfer).  A member that empties the list by calling pop() in a loop hands the handles on back to front"""
+    rid = ctx.rule(rid_, 'ORDER', 'no member of suspend_point (closures and helpers included) drains the list by calling its own pop() in a loop: the handles are moved to the ready '
+                   'queue / resumed by forward iteration, in the order they were added', floor=3)
+    T = htracer(db, maxvisit=2)
+    seen = set(); n = 0
+    for f in db.all_instances():
+        if not (f['nname'].startswith('cocls::suspend_point::') and f.get('class_inst', 'cocls::suspend_point<void>').startswith('cocls::suspend_point<void>')) or f['key'] in seen:
+            continue
+        if f['nname'].split('::')[-1] in ('pop',):
+            continue
+        seen.add(f['key'])
+        if not any(e.k == 'call' for e in f.events()):
+            continue
+        n += 1
+        bad = None
+        for tr in T.traces(f):
+            locs = [it.get('loc') for it in tr if it.k == 'call' and norm(it.get('callee') or '') == 'cocls::suspend_point::pop' and rooted(it.get('recv') or 'this', 'this')]
+            if len(locs) != len(set(locs)):
+                bad = bad or tr
+        ctx.ob(rid, f, f['key'], bad is None, '%s does not drain the list back to front' % f['nname'].split('::')[-1], desc='%s empties the suspend point with pop() in a loop: ready coroutines run in reverse order' % f['nname'].split('::')[-1],
+               trace=fmt_trace(bad) if bad else None)
+    if n == 0:
+        raise Broken('no member of suspend_point<void> with calls found')
 
 
 def is_resume(ev):
@@ -235,6 +263,14 @@ def drain_before_restore(ctx, db, rid_='C05.drain-before-restore'):
                     o_ = origin_in_trace(tr_, i_, e_.get('init'))[0] or ''
                     if o_ == INSTANCE or o_ == 'call(std::exchange)':
                         saved_names.add(vn_.replace('local:', ''))
+    # a capture initialised from a local of the enclosing function ([p = prev], or the member of a hand-written closure class) stands for that local
+    cap_init = {}
+    for f_ in db.fns('cocls::coro_queue::install_queue_and_call')[:2]:
+        for e_ in f_.events():
+            if e_.k == 'lambda':
+                for c_ in e_.get('captures') or []:
+                    if c_.get('init_capture') and re.fullmatch(r'(local|param):\w+', c_.get('init') or ''):
+                        cap_init[(e_.get('fn_key'), c_.get('name'))] = c_['init']
     seen = set()
     for lf in lams:
         if lf['key'] in seen:
@@ -254,7 +290,8 @@ def drain_before_restore(ctx, db, rid_='C05.drain-before-restore'):
                 bad = bad or ('a path leaves without restoring the previous mode (the thread stays in coroutine mode)', tr)
             elif wi < fi:
                 bad = bad or ('the mode flag is restored before the queue is drained', tr)
-            elif not re.fullmatch(r'(capture|local|param):(%s)' % '|'.join(sorted(saved_names) or ['prev']), tr[wi].get('rhs') or ''):
+            elif not re.fullmatch(r'(capture|local|param):(%s)' % '|'.join(sorted(saved_names) or ['prev']),
+                                  cap_init.get((lf['key'], (tr[wi].get('rhs') or '').replace('capture:', '')), tr[wi].get('rhs') or '') if (tr[wi].get('rhs') or '').startswith('capture:') else (tr[wi].get('rhs') or '')):
                 bad = bad or ('the mode flag is not restored to the saved previous value', tr)
         ctx.ob(rid, lf, lf['key'], bad is None, 'flush_queue precedes the restore of coro_queue::instance on every path' + ('' if not bad else ' -- ' + bad[0]), desc=bad[0] if bad else None,
                trace=fmt_trace(bad[1]) if bad else None)
@@ -432,7 +469,7 @@ def install_only_inactive(ctx, db, rid_='C05.install-only-inactive'):
             ok = True
             if f['nname'].endswith('initial_awaiter::await_suspend'):
                 sib = db.fns('cocls::coro_queue::initial_awaiter::await_ready')
-                ok = bool(sib) and all((ret_expr(tr) or '').endswith('is_active)') or re.fullmatch(r'\(global:cocls::coro_queue::instance != nullptr\)', ret_expr(tr) or '') for tr in T.traces(sib[0]) if live(tr))
+                ok = bool(sib) and all((ret_expr(tr) or '').endswith('is_active)') or says_nonnull(ret_expr(tr) or '', 'global:cocls::coro_queue::instance') for tr in T.traces(sib[0]) if live(tr))
             ctx.ob(rid, f, sites[0]['loc'], ok, 'unguarded by table: ' + why, desc='initial awaiter no longer guarded by await_ready = is_active')
             continue
         # a non-public helper of a class that is reached only from members of that class is judged inside its callers (it is expanded there)
